@@ -7,6 +7,9 @@ for i in $COPIES; do
   rsync -a --exclude .cache --exclude .git --exclude 'lean/.lake' --exclude 'harness/target' --exclude harness/Cargo.toml --exclude harness/.cargo --exclude setup.sh --exclude check --exclude seeded/STATUS.json /verif/ $D/verif/
   sed "s#^REPO = \"/repo\"#REPO = \"$D/repo\"#" /verif/check > $D/verif/check
   sed "s#/repo/#$D/repo/#g" /verif/harness/Cargo.toml > $D/verif/harness/Cargo.toml
+  # the scratch worktree follows /repo's HEAD (hook and fix commits made since the copy was taken)
+  git -C $D/repo checkout -q -- . ; git -C $D/repo clean -fdq; git -C $D/repo checkout -q --detach $(git -C /repo rev-parse HEAD)
+  cp $D/repo/Cargo.lock $D/verif/harness/Cargo.lock
   : > $D/confirm.list
 done
 set -- "$@"
